@@ -6,6 +6,7 @@ import (
 	"go/token"
 	"go/types"
 	"sort"
+	"strconv"
 	"strings"
 
 	"golang.org/x/tools/go/ssa"
@@ -687,8 +688,69 @@ var panicTies = map[string]string{
 	"index.extractDocId":          "KEY3: every index key is written with the 36-byte document id appended (validated uuid, ID2)",
 }
 
+// satisfyPanicFree evaluates UnaryCriteria.Satisfy abstractly for every operator constant
+// declared in package query (names ending in Op) with the comparison, the normaliser and the
+// document accessors left open, and records which explicit panic sites are reached. decided is
+// false when the evaluation could not be carried out.
+func (c *Ctx) satisfyPanicFree() (unreached func(token.Pos) bool, decided bool) {
+	if c.satPanics == nil {
+		c.satPanics = map[token.Pos]bool{}
+		c.satPanicsDecided = false
+		sat := c.lookupMethod("query", "UnaryCriteria", "Satisfy")
+		p := c.LibTypes[c.ModPath+"/query"]
+		if sat != nil && p != nil {
+			c.satPanicsDecided = true
+			n := 0
+			for _, name := range p.Types.Scope().Names() {
+				if !strings.HasSuffix(name, "Op") {
+					continue
+				}
+				cst, ok := p.Types.Scope().Lookup(name).(*types.Const)
+				if !ok {
+					continue
+				}
+				k, ok := constantInt(cst)
+				if !ok {
+					continue
+				}
+				n++
+				te := c.newTagEval()
+				te.descendUnknown = true
+				te.maxVisits = 6
+				te.loadHook = func(l *ssa.UnOp) (aval, bool) {
+					if c.isFieldLoadOf(l, "query", "UnaryCriteria", "OpType") {
+						return aval{K: aConst, C: constant.MakeInt64(k)}, true
+					}
+					return aval{}, false
+				}
+				te.callHook = func(call *ssa.Call) ([]aval, bool) {
+					if g := staticCallee(call); g != nil && c.pkgRel(c.declared(g)) != "query" {
+						// everything outside the evaluator is left open
+						res := make([]aval, g.Signature.Results().Len())
+						return res, true
+					}
+					return nil, false
+				}
+				for _, oc := range te.Eval(sat, []aval{{K: aConst}, {}}, 0) {
+					if oc.Panic && oc.Why == "explicit panic" {
+						c.satPanics[oc.Pos] = true
+					}
+				}
+			}
+			if n == 0 {
+				c.satPanicsDecided = false
+			}
+		}
+	}
+	return func(pos token.Pos) bool { return !c.satPanics[pos] }, c.satPanicsDecided
+}
+
 func rulePANIC1(c *Ctx) []Ob {
 	o := newObs(c, "PANIC1")
+	satReach := map[*ssa.Function]bool{}
+	if sat := c.lookupMethod("query", "UnaryCriteria", "Satisfy"); sat != nil {
+		satReach = c.staticReach(sat)
+	}
 	for _, fn := range c.LibFuncs {
 		for _, b := range fn.Blocks {
 			for _, in := range b.Instrs {
@@ -712,6 +774,8 @@ func rulePANIC1(c *Ctx) []Ob {
 				}
 				if tie, ok := panicTies[name]; ok {
 					o.add(OK, key, relPath(c, pn.Pos()), "explicit panic accounted for: %s", tie)
+				} else if unreached, decided := c.satisfyPanicFree(); decided && c.pkgRel(fn) == "query" && satReach[rootFunc(fn)] && unreached(pn.Pos()) {
+					o.add(OK, key, relPath(c, pn.Pos()), "explicit panic in the criteria evaluator that UnaryCriteria.Satisfy, evaluated abstractly for every operator constant of package query, never reaches (the operators routed to this function are a subset of the cases it handles)")
 				} else {
 					o.add(UNDECIDED, key, relPath(c, pn.Pos()), "new explicit panic site with no rule making it unreachable from the public API")
 				}
@@ -875,6 +939,7 @@ func ruleOPS4(c *Ctx) []Ob {
 			for _, b := range []bool{false, true} {
 				op, a, b := op, a, b
 				te := c.newTagEval()
+				te.descendUnknown = true
 				te.loadHook = func(l *ssa.UnOp) (aval, bool) {
 					if c.isFieldLoadOf(l, "query", "BinaryCriteria", "OpType") {
 						return aval{K: aConst, C: constant.MakeInt64(op.k)}, true
@@ -906,6 +971,7 @@ func ruleOPS4(c *Ctx) []Ob {
 	for _, a := range []bool{false, true} {
 		a := a
 		te := c.newTagEval()
+		te.descendUnknown = true
 		te.callHook = func(call *ssa.Call) ([]aval, bool) {
 			if isSatisfyOf(call, "C") {
 				return []aval{boolConst(a)}, true
@@ -979,6 +1045,7 @@ func ruleOPS4(c *Ctx) []Ob {
 			for _, r := range []int64{-1, 0, 1} {
 				name, k, r := name, k, r
 				te := c.newTagEval()
+				te.descendUnknown = true
 				te.loadHook = func(l *ssa.UnOp) (aval, bool) {
 					if c.isFieldLoadOf(l, "query", "UnaryCriteria", "OpType") {
 						return aval{K: aConst, C: constant.MakeInt64(k)}, true
@@ -1114,6 +1181,7 @@ func ruleOPS5(c *Ctx) []Ob {
 	docNil := false
 	eval := func(op int64, m, n int, has bool, docIsArray bool, eq func(i, j int64) bool) (bool, string) {
 		te := c.newTagEval()
+		te.descendUnknown = true
 		te.maxVisits = 8
 		te.loadHook = func(l *ssa.UnOp) (aval, bool) {
 			if c.isFieldLoadOf(l, "query", "UnaryCriteria", "OpType") {
@@ -1169,6 +1237,92 @@ func ruleOPS5(c *Ctx) []Ob {
 		}
 		return singleBool(te.Eval(sat, []aval{{K: aConst}, {}}, 0))
 	}
+	// evalV: the same evaluation with identities carried by the abstract values themselves: the
+	// operand list is the known list ["op:0", ...], the array field ["doc:0", ...], a scalar field
+	// "doc:0"; Normalize hands its argument on; Compare reads the two identities off its arguments.
+	// This follows the values through helpers (hasElement(slice, value)), where the syntactic
+	// trace above sees only parameters.
+	evalSyntactic := eval
+	eval = func(op int64, m, n int, has bool, docIsArray bool, eq func(i, j int64) bool) (bool, string) {
+		mk := func(prefix string, k int) []aval {
+			var l []aval
+			for i := 0; i < k; i++ {
+				l = append(l, aval{K: aConst, C: constant.MakeString(fmt.Sprintf("%s:%d", prefix, i))})
+			}
+			return l
+		}
+		idOf := func(a aval, prefix string) (int64, bool) {
+			if a.K != aConst || a.C == nil || a.C.Kind() != constant.String {
+				return 0, false
+			}
+			str := constant.StringVal(a.C)
+			if !strings.HasPrefix(str, prefix+":") {
+				return 0, false
+			}
+			k, err := strconv.Atoi(str[len(prefix)+1:])
+			return int64(k), err == nil
+		}
+		te := c.newTagEval()
+		te.descendUnknown = true
+		te.assertKnown = true
+		te.maxVisits = 8
+		te.loadHook = func(l *ssa.UnOp) (aval, bool) {
+			if c.isFieldLoadOf(l, "query", "UnaryCriteria", "OpType") {
+				return aval{K: aConst, C: constant.MakeInt64(op)}, true
+			}
+			if c.isFieldLoadOf(l, "query", "UnaryCriteria", "Value") {
+				return aval{K: aList, L: mk("op", m)}, true
+			}
+			return aval{}, false
+		}
+		identified := true
+		te.callHookEnv = func(call *ssa.Call, val func(ssa.Value) aval) ([]aval, bool) {
+			g := staticCallee(call)
+			if g == nil {
+				return nil, false
+			}
+			switch c.declared(g) {
+			case norm:
+				return []aval{val(call.Call.Args[0]), {K: aTag, Tag: nil}}, true
+			case hasM:
+				return []aval{boolConst(has)}, true
+			case getM:
+				if docNil {
+					return []aval{{K: aTag, Tag: nil}}, true
+				}
+				if docIsArray {
+					return []aval{{K: aList, L: mk("doc", n)}}, true
+				}
+				return []aval{{K: aConst, C: constant.MakeString("doc:0")}}, true
+			case cmp:
+				var i, j int64
+				okI, okJ := false, docNil
+				for _, a := range call.Call.Args {
+					if x, ok := idOf(val(a), "op"); ok {
+						i, okI = x, true
+					}
+					if x, ok := idOf(val(a), "doc"); ok {
+						j, okJ = x, true
+					}
+				}
+				if !okI || !okJ {
+					identified = false
+					return []aval{{}}, true
+				}
+				r := int64(1)
+				if eq(i, j) {
+					r = 0
+				}
+				return []aval{{K: aConst, C: constant.MakeInt64(r)}}, true
+			}
+			return nil, false
+		}
+		got, why := singleBool(te.Eval(sat, []aval{{K: aConst}, {}}, 0))
+		if why == "" && identified {
+			return got, ""
+		}
+		return evalSyntactic(op, m, n, has, docIsArray, eq)
+	}
 	pos := relPath(c, sat.Pos())
 	report := func(key string, got bool, why string, want bool, what string) {
 		switch {
@@ -1201,6 +1355,16 @@ func ruleOPS5(c *Ctx) []Ob {
 				got, why := eval(k, m, 1, true, false, func(i, _ int64) bool { return mask&(1<<uint(i)) != 0 })
 				key := fmt.Sprintf("In on a nil field value: %d operands, equal pattern %0*b", m, m, mask)
 				report(key, got, why, want, fmt.Sprintf("In with %d listed values against a field whose value is nil (equal pattern %0*b)", m, m, mask))
+			}
+		}
+		// ... and when the field is absent: Get reads nil for it, and In does not ask for presence
+		for m := 1; m <= 2; m++ {
+			for mask := 0; mask < 1<<uint(m); mask++ {
+				mask := mask
+				want := mask != 0
+				got, why := eval(k, m, 1, false, false, func(i, _ int64) bool { return mask&(1<<uint(i)) != 0 })
+				key := fmt.Sprintf("In on an absent field: %d operands, equal pattern %0*b", m, m, mask)
+				report(key, got, why, want, fmt.Sprintf("In with %d listed values against an absent field, which reads as nil (equal pattern %0*b)", m, m, mask))
 			}
 		}
 		docNil = false
@@ -1330,6 +1494,7 @@ func ruleOPS6(c *Ctx) []Ob {
 	for _, tc := range cases {
 		tc := tc
 		te := c.newTagEval()
+		te.descendUnknown = true
 		te.callHookEnv = func(call *ssa.Call, val func(ssa.Value) aval) ([]aval, bool) {
 			if g := staticCallee(call); g != nil && c.declared(g) == getM {
 				return []aval{fetched}, true
